@@ -70,7 +70,7 @@ def _tweak_prize_required(env, td):
     return td
 
 
-POOL_TWEAKS = {"cvrp": _tweak_vehicle_capacity, "sdvrp": _tweak_vehicle_capacity, "cvrptw": _tweak_vehicle_capacity,
+POOL_TWEAKS = {"mtvrp": _tweak_vehicle_capacity, "cvrp": _tweak_vehicle_capacity, "sdvrp": _tweak_vehicle_capacity, "cvrptw": _tweak_vehicle_capacity,
                "pctsp": _tweak_prize_required, "spctsp": _tweak_prize_required}
 
 # keys whose per-row values are reported in the input distribution when they differ inside a pool
@@ -98,6 +98,14 @@ def make_pool(name: str, env, rng, rows: int = 9, env_factory=None):
         order = list(range(len(groups)))
         rng.shuffle(order)
         order = order[:rows]
+        # row 0 (the instance under test) comes from the FIRST variant (smallest parameters), row 1 (the second instance under
+        # test) from the LAST one (largest): a batch-global max / min / first-row shortcut shows for at least one of them
+        g_of = [groups[k] for k in order]
+        lo = next((j for j, g in enumerate(g_of) if g == 0), 0)
+        order[0], order[lo] = order[lo], order[0]
+        g_of = [groups[k] for k in order]
+        hi = next((j for j, g in enumerate(g_of) if g == len(variants) - 1 and j != 0), 1)
+        order[1], order[hi] = order[hi], order[1]
         td, groups = td[order], [groups[k] for k in order]
     td = env.reset(td)
     tw = POOL_TWEAKS.get(name)
